@@ -163,10 +163,29 @@ func driveC20(o opts) error {
 	}
 	defer os.RemoveAll(modDir)
 	var pkgs []string
-	for si := 0; si < nschemas; si++ {
+	// hand-written schemas first: short names, enum values that need care when they become Go text
+	strEnum := func(vals ...interface{}) map[string]interface{} {
+		return map[string]interface{}{"type": map[string]interface{}{"key": map[string]interface{}{"type": "string", "enum": []interface{}{"set", vals}}}}
+	}
+	realEnum := map[string]interface{}{"type": map[string]interface{}{"key": map[string]interface{}{"type": "real", "enum": []interface{}{"set", []interface{}{1.5, 15.0, -1.5, -15.0}}}}}
+	intEnum := map[string]interface{}{"type": map[string]interface{}{"key": map[string]interface{}{"type": "integer", "enum": []interface{}{"set", []interface{}{15, -15, 0}}}, "min": 0, "max": "unlimited"}}
+	fixed := []map[string]interface{}{
+		{"T": map[string]interface{}{"columns": map[string]interface{}{"e": strEnum("a", "b")}}},
+		{"Port": map[string]interface{}{"columns": map[string]interface{}{"mode": realEnum, "level": intEnum, "q": strEnum("in-band", "out_of_band2", "x")}},
+			"Bridge": map[string]interface{}{"columns": map[string]interface{}{"name": map[string]interface{}{"type": "string"}}, "isRoot": true}},
+		// (last: generated without enum types only - the value is not the stuff of an identifier, recorded finding)
+		{"Q": map[string]interface{}{"columns": map[string]interface{}{"bq": strEnum("a`b", "c"), "q": strEnum("say \"hi\"", "back\\slash", "802.1q", "")}}},
+	}
+	for si := 0; si < nschemas+len(fixed); si++ {
 		// schema
 		tables := map[string]interface{}{}
+		if si >= nschemas {
+			tables = fixed[si-nschemas]
+		}
 		tn := g.R.Perm(len(c20TableNames))[:1+g.Intn(3)]
+		if si >= nschemas {
+			tn = nil
+		}
 		for _, ti := range tn {
 			cols := map[string]interface{}{}
 			for _, ci := range g.R.Perm(len(c20ColNames))[:3+g.Intn(8)] {
@@ -198,6 +217,9 @@ func driveC20(o opts) error {
 		}
 		for combo := 0; combo < 4; combo++ {
 			enumTypes, extended := combo&1 == 1, combo&2 == 2
+			if enumTypes && si == nschemas+len(fixed)-1 {
+				continue
+			}
 			pkg := fmt.Sprintf("p%d_%d", si, combo)
 			render := func() (map[string][]byte, error) {
 				out := map[string][]byte{}
@@ -298,6 +320,34 @@ func driveC20(o opts) error {
 						}
 					}
 				}
+			}
+		}
+	}
+	// witness of the recorded finding C20 class 31: names derived from schema text collide
+	{
+		wdir := filepath.Join(modDir, "witness")
+		_ = os.MkdirAll(filepath.Join(wdir, "w"), 0o755)
+		var ws ovsdb.DatabaseSchema
+		_ = json.Unmarshal([]byte(`{"name":"W","version":"1.0.0","tables":{"W":{"columns":{"uuid":{"type":"string"},"name":{"type":"string"}}}}}`), &ws)
+		if gnr, err := modelgen.NewGenerator(); err == nil {
+			table := ws.Tables["W"]
+			src, err1 := gnr.Format(modelgen.NewTableTemplate(), modelgen.GetTableTemplateData("w", "W", &table))
+			dbsrc, err2 := gnr.Format(modelgen.NewDBTemplate(), modelgen.GetDBTemplateData("w", ws))
+			failed := err1 != nil || err2 != nil
+			if !failed {
+				_ = os.WriteFile(filepath.Join(wdir, "w", modelgen.FileName("W")), src, 0o644)
+				_ = os.WriteFile(filepath.Join(wdir, "w", "model.go"), dbsrc, 0o644)
+				_ = os.WriteFile(filepath.Join(wdir, "go.mod"), []byte("module c20w\n\ngo 1.18\n\nrequire github.com/ovn-org/libovsdb v0.0.0\n\nreplace github.com/ovn-org/libovsdb => "+repo+"\n"), 0o644)
+				if sum, err := os.ReadFile(filepath.Join(repo, "go.sum")); err == nil {
+					_ = os.WriteFile(filepath.Join(wdir, "go.sum"), sum, 0o644)
+				}
+				build := exec.Command("go", "build", "./w")
+				build.Dir, build.Env = wdir, append(os.Environ(), "GOFLAGS=-mod=mod", "GOPROXY=off", "GOSUMDB=off", "GOTOOLCHAIN=local")
+				outb, err := build.CombinedOutput()
+				failed = err != nil && strings.Contains(string(outb), "redeclared")
+			}
+			if failed {
+				known["31"]++
 			}
 		}
 	}
@@ -620,6 +670,30 @@ func probe(pkg string, schema ovsdb.DatabaseSchema, cm model.ClientDBModel) {
 			}
 			counts["laws"]++
 		}
+	}
+	// models of different tables are not equal, whichever of them is asked
+	var first reflect.Type
+	var firstName string
+	for table, t := range dbm.Types() {
+		if first == nil || table < firstName {
+			first, firstName = t, table
+		}
+	}
+	for table, t := range dbm.Types() {
+		if t == first {
+			continue
+		}
+		func() {
+			defer func() {
+				if r := recover(); r != nil {
+					fmt.Printf("FAIL %s: Equal of a %s and a %s panics: %v\n", pkg, firstName, table, r)
+				}
+			}()
+			if model.Equal(newFilled(first), newFilled(t)) || model.Equal(newFilled(t), newFilled(first)) {
+				fmt.Printf("FAIL %s: a %s and a %s are Equal\n", pkg, firstName, table)
+			}
+			counts["cross-table-equal"]++
+		}()
 	}
 }
 
